@@ -19,6 +19,12 @@ Theorem C20_catalogue_closed :
   catalogue_closed = true /\ no_external_sources = true /\ classified_findings = ["canon-map-colliding-keys"].
 Proof. exact (conj catalogue_closed_ok (conj no_external_sources_ok classified_findings_ok)). Qed.
 
+(* the three verification loops whose error names a culprit visit their HashMap in key order in the sources today
+   (DataVerifier::verify, CidStore::verify, CidStore::verify_raw_value); five message-only sites remain
+   (known finding preparation-error-first-culprit-uncovered-sites) *)
+Theorem C20_first_culprit_source_tie : first_culprit_fixed = true /\ length message_only_sites = 5%nat.
+Proof. exact (conj first_culprit_fixed_ok message_only_sites_ok). Qed.
+
 (* farewell_step/outcome.rs dedup: whatever the HashSet's iteration order, the same SET of next peers, no duplicates *)
 Theorem C20_dedup_order : C20_dedup_order_stmt.
 Proof. exact DetProofs.C20_dedup_order. Qed.
@@ -167,6 +173,7 @@ Example C20_message_example :
 Proof. vm_compute. split; reflexivity. Qed.
 
 Print Assumptions C20_catalogue_closed.
+Print Assumptions C20_first_culprit_source_tie.
 Print Assumptions C20_dedup_order.
 Print Assumptions C20_compactify_order.
 Print Assumptions C20_apply_updates_order.
